@@ -47,6 +47,17 @@ pub fn run_random<W: Write, W2: Write>(
     for k in 0..count {
         let mut rng = Rng(seed.wrapping_mul(1_000_003).wrapping_add(k));
         let id = format!("{}-{}-{}", driver, seed, k);
+        if driver == "exactfund" {
+            let (mut a, mut b) = drive_exactfund(&id, &mut rng);
+            total_ev += a.out.len() + b.out.len();
+            if let Some(so) = scn_out.as_mut() {
+                writeln!(so, "{}", a.scenario_json()).unwrap();
+                writeln!(so, "{}", b.scenario_json()).unwrap();
+            }
+            a.flush(out);
+            b.flush(out);
+            continue;
+        }
         let mut r = match driver {
             "vamm" => drive_vamm(&id, &mut rng, maxops),
             "feed" => drive_feed(&id, &mut rng, maxops),
@@ -87,7 +98,8 @@ fn drive_vamm(id: &str, rng: &mut Rng, maxops: u64) -> Runner {
         let roll = rng.below(100);
         if roll < 14 {
             let dt = *rng.pick(&[1i64, 15, 15, 60, 899, 900, 901, 3600]);
-            r.op(&json!({"k": "block", "dh": 1, "dt": dt}));
+            let dns = *rng.pick(&[0u64, 0, 250_000_000, 500_000_000, 999_000_000]);
+            r.op(&json!({"k": "block", "dh": 1, "dt": dt, "dns": dns}));
             if rng.chance(60) {
                 let iv = *rng.pick(&[1i64, 15, 60, 900, 3600, 100000]);
                 r.op(&json!({"k": "query", "c": "vamm1", "q": "twap_price", "a": {"interval": iv}}));
@@ -141,6 +153,21 @@ fn drive_feed(id: &str, rng: &mut Rng, maxops: u64) -> Runner {
         if roll < 35 {
             let dt = *rng.pick(&[1i64, 15, 60, 300, 900, 3600]);
             r.op(&json!({"k": "block", "dh": 1, "dt": dt}));
+        } else if roll < 45 {
+            // a batch of submissions (non-decreasing timestamps, not in the future)
+            let last_t = r.out.last().unwrap()["post"]["feed"]["rounds"]["ETH"]
+                .as_array().and_then(|a| a.last()).map(|x| num(&x["t"])).unwrap_or(0);
+            let n = rng.range(1, 3);
+            let mut ps = vec![];
+            let mut ts = vec![];
+            let mut t = last_t.max(now - 2000).min(now);
+            for _ in 0..n {
+                ps.push(*rng.pick(&[700i64, 900, 1000, 1100, 1300, 1800]));
+                t = rng.range(t, now);
+                ts.push(t);
+            }
+            r.op(&json!({"k": "tx", "c": "feed", "m": "append_multiple_price", "s": "owner",
+                "a": {"key": "ETH", "prices": ps, "ts": ts}}));
         } else if roll < 70 {
             let price = *rng.pick(&[800i64, 900, 1000, 1000, 1100, 1250, 2000, 1]);
             let last_t = r.out.last().unwrap()["post"]["feed"]["rounds"]["ETH"]
@@ -274,6 +301,25 @@ fn drive_engine(id: &str, flavour: &str, rng: &mut Rng, maxops: u64) -> Runner {
             let limit = if rng.chance(8) { rng.range(1, 5000) } else { 0 };
             r.op(&json!({"k": "tx", "c": "engine", "m": "open_position", "s": t,
                 "a": {"vamm": v, "side": side, "margin": margin, "leverage": lev, "limit": limit}, "funds": funds}));
+        } else if roll < 50 && has && rng.chance(30) {
+            // top the margin up so that the position is worth exactly zero (margin + pnl - funding = 0),
+            // then close it: a close that pays nothing
+            r.op(&json!({"k": "query", "c": "engine", "q": "unrealized_pnl", "a": {"vamm": v, "trader": t, "opt": "spot_price"}}));
+            let pnl = num(&r.out.last().unwrap()["res"]["val"]["unrealized_pnl"]);
+            r.op(&json!({"k": "query", "c": "engine", "q": "position_with_funding_payment", "a": {"vamm": v, "trader": t}}));
+            let pw = r.out.last().unwrap()["res"]["val"].clone();
+            let mut eq = num(&pw["margin"]) + pnl;
+            // the margin reported with funding is clamped at zero: recover the signed value
+            let owed = (num(&post["eng"]["vmap"][&v]["cpf"].as_array().and_then(|a| a.last()).cloned().unwrap_or(json!(0))) - num(&p["lupf"])) * num(&p["size"]);
+            let owed = if owed < 0 { -((-owed) / d) } else { owed / d };
+            if num(&pw["margin"]) == 0 {
+                eq = num(&p["margin"]) - owed + pnl;
+            }
+            if eq < 0 {
+                let amt = -eq;
+                r.op(&json!({"k": "tx", "c": "engine", "m": "deposit_margin", "s": t, "a": {"vamm": v, "amount": amt}, "funds": if native { amt } else { 0 }}));
+            }
+            r.op(&json!({"k": "tx", "c": "engine", "m": "close_position", "s": t, "a": {"vamm": v, "limit": 0}}));
         } else if roll < 50 || (flavour == "fluct" && has && roll < 68) {
             let who = if has { t } else { *rng.pick(&TRADERS[..3]) };
             let limit = if rng.chance(8) { rng.range(1, 50000) } else { 0 };
@@ -337,4 +383,61 @@ fn drive_engine(id: &str, flavour: &str, rng: &mut Rng, maxops: u64) -> Runner {
         }
     }
     r
+}
+
+/// The insurance fund holds *exactly* what the final liquidation needs: the scenario is run once
+/// with an ample fund to learn how much the fund pays during the liquidation, then again with the
+/// fund sized so that it holds precisely that amount (or one unit more) when the liquidation starts.
+fn drive_exactfund(id: &str, rng: &mut Rng) -> (Runner, Runner) {
+    let native = rng.chance(30);
+    let side = if rng.chance(50) { "sell" } else { "buy" };
+    let other = if side == "sell" { "buy" } else { "sell" };
+    let plr = *rng.pick(&[0i64, 0, 25]);
+    let m1 = *rng.pick(&[1500i64, 2000, 2500]);
+    let variant = rng.below(3);
+    let f = |m: i64| if native { m } else { 0 };
+    let mut ops: Vec<Value> = vec![json!({"k": "block", "dh": 1, "dt": 15})];
+    if variant == 0 {
+        // two traders on one side, the first closes in profit (vault drained), the second is liquidated
+        ops.push(json!({"k": "tx", "c": "engine", "m": "open_position", "s": "tr1", "a": {"vamm": "vamm1", "side": side, "margin": m1, "leverage": 1000, "limit": 0}, "funds": f(m1)}));
+        ops.push(json!({"k": "tx", "c": "engine", "m": "open_position", "s": "tr2", "a": {"vamm": "vamm1", "side": side, "margin": m1, "leverage": 1000, "limit": 0}, "funds": f(m1)}));
+        ops.push(json!({"k": "block", "dh": 1, "dt": 15}));
+        ops.push(json!({"k": "tx", "c": "engine", "m": "close_position", "s": "tr1", "a": {"vamm": "vamm1", "limit": 0}}));
+    } else {
+        // a leveraged position pushed deep under water by a larger opposite trade
+        let push = *rng.pick(&[2500i64, 3000, 4000]);
+        ops.push(json!({"k": "tx", "c": "engine", "m": "open_position", "s": "tr2", "a": {"vamm": "vamm1", "side": side, "margin": m1, "leverage": 1000, "limit": 0}, "funds": f(m1)}));
+        ops.push(json!({"k": "tx", "c": "engine", "m": "open_position", "s": "tr1", "a": {"vamm": "vamm1", "side": other, "margin": push, "leverage": 1000, "limit": 0}, "funds": f(push)}));
+        if variant == 2 {
+            ops.push(json!({"k": "block", "dh": 1, "dt": 15}));
+            ops.push(json!({"k": "tx", "c": "engine", "m": "close_position", "s": "tr1", "a": {"vamm": "vamm1", "limit": 0}}));
+        }
+    }
+    ops.push(json!({"k": "block", "dh": 1, "dt": 901}));
+    let liq_op = json!({"k": "tx", "c": "engine", "m": "liquidate", "s": "liq", "a": {"vamm": "vamm1", "trader": "tr2", "limit": 0}});
+    let big = 500_000i64;
+    let dep_a = json!({"collateral": if native {"native"} else {"cw20"}, "dec": 2, "engine": {"plr": plr}, "ifund_bal": big});
+    let mut a = Runner::new(&format!("{}-ample", id), &dep_a);
+    for o in ops.iter() {
+        a.op(o);
+    }
+    let before = num(&a.out.last().unwrap()["post"]["bal"]["ifund"]);
+    a.op(&liq_op);
+    let mut need: i64 = 0;
+    if let Some(xs) = a.out.last().unwrap()["xfers"].as_array() {
+        for x in xs {
+            if x["ok"].as_bool().unwrap_or(false) && x["from"].as_str() == Some("ifund") {
+                need += x["amt"].as_i64().unwrap_or(0);
+            }
+        }
+    }
+    let extra = if rng.chance(50) { 0 } else { 1 };
+    let fund_b = (big - before + need + extra).max(0);
+    let dep_b = json!({"collateral": if native {"native"} else {"cw20"}, "dec": 2, "engine": {"plr": plr}, "ifund_bal": fund_b});
+    let mut b = Runner::new(&format!("{}-exact", id), &dep_b);
+    for o in ops.iter() {
+        b.op(o);
+    }
+    b.op(&liq_op);
+    (a, b)
 }
